@@ -325,6 +325,7 @@ func checkC15(c *Check) {
 	}
 
 	checkGenericLookupOrder(c)
+	checkStructTypesDeclaredBeforeUse(c, c.Rule("R15.8", "a Kombination private to the generic function's module is declared on demand where the function is instantiated", 1))
 
 	// ---------------- R15.6 ----------------
 	// the context an instantiation is parsed in always contains what was in scope where the generic function was declared:
